@@ -48,7 +48,7 @@ func c14Check2(cs []tcue, d int64, filler bool, d2 int64) string {
 	sub := astisub.NewSubtitles()
 	snaps := make([]string, len(cs))
 	for k, c := range cs {
-		it := textItem(time.Duration(c.S), time.Duration(c.E), c.T)
+		it := decorate(textItem(time.Duration(c.S), time.Duration(c.E), c.T), k)
 		if k%2 == 0 {
 			it.InlineStyle = &astisub.StyleAttributes{WebVTTAlign: "left"}
 		}
@@ -298,7 +298,7 @@ func c15Check(cs []tcue, a1, d1, a2, d2 int64) string {
 	sub := astisub.NewSubtitles()
 	snaps := make([]string, len(cs))
 	for k, c := range cs {
-		it := textItem(time.Duration(c.S), time.Duration(c.E), c.T)
+		it := decorate(textItem(time.Duration(c.S), time.Duration(c.E), c.T), k)
 		sub.Items = append(sub.Items, it)
 		snaps[k] = snapItem(it)
 	}
